@@ -163,6 +163,7 @@ func omitStreaming(r *evid.Run) {
 			un := units[u]
 			for _, L := range Ls {
 				n++
+				w.Beat()
 				cur = Case{Part: "omit-stream", Index: un.vi, Name: fmt.Sprint(un.ti), Opt: fmt.Sprint(L)}
 				if m := streamOne(un.vi, un.ti, L); m != "" {
 					cs := cur
